@@ -436,7 +436,7 @@ class Interp:
             if not broke and s.orelse:
                 self.block(s.orelse)
         elif isinstance(s, ast.For):
-            it = self.ev(s.iter)
+            it = self._nt_seq(self.ev(s.iter))
             if isinstance(it, Rec) and isinstance(it.f.get('cls'), str):
                 found, res = self._dunder(it, '__iter__')
                 if found:
@@ -553,6 +553,13 @@ class Interp:
         v = self.ev(node)
         return v
 
+    @staticmethod
+    def _nt_seq(v):
+        """A NamedTuple instance as the tuple of its fields; anything else unchanged."""
+        if isinstance(v, Rec) and '__nt__' in v.f:
+            return tuple(v.f[n_] for n_ in v.f['__nt__'])
+        return v
+
     def store(self, t, val):
         if isinstance(t, ast.Name):
             if t.id in self.global_names:
@@ -576,7 +583,7 @@ class Interp:
             else:
                 raise Unmodelled(f'attribute store on {base!r}')
         elif isinstance(t, (ast.Tuple, ast.List)):
-            vals = list(val)
+            vals = list(self._nt_seq(val))
             for tt, vv in zip(t.elts, vals):
                 self.store(tt, vv)
         elif isinstance(t, ast.Subscript) and not isinstance(t.slice, ast.Slice):
@@ -671,6 +678,11 @@ class Interp:
                     return v_
                 if isinstance(val_, ast.FunctionDef):
                     return Ref(f'{base.ref}.{n.attr}')
+            if isinstance(base, Ref) and n.attr in ('__traceback__', '__cause__', '__context__') and (
+                    base.ref.startswith('builtin:') or self._is_pkg_class(base.ref)):
+                return Opaque(n.attr)
+            if isinstance(base, Ref) and n.attr == 'args' and base.ref.startswith('builtin:'):
+                return Opaque('exception args')
             if isinstance(base, Ref) and n.attr == '__name__' and base.ref.startswith(('pkg:', 'builtin:')):
                 return base.ref.rpartition(':')[2].rpartition('.')[2]
             if isinstance(base, Obj):
@@ -768,6 +780,8 @@ class Interp:
                     targs_.append(Ref('builtin:NoneType'))
                 return TypingAlias(Ref(_TYPING_ORIGINS[short_]), targs_)
             idx = self.ev(n.slice)
+            if isinstance(base, Rec) and '__nt__' in base.f:
+                base = self._nt_seq(base)
             if isinstance(base, Rec):
                 found, res = self._dunder(base, '__getitem__', idx)
                 if found:
@@ -858,7 +872,7 @@ class Interp:
         args = []
         for a in n.args:
             if isinstance(a, ast.Starred):
-                seq = self.ev(a.value)
+                seq = self._nt_seq(self.ev(a.value))
                 if isinstance(seq, (Opaque, Ref, Rec)):
                     raise Unmodelled('starred argument of a symbolic sequence')
                 args.extend(list(seq))
@@ -1312,7 +1326,7 @@ class Interp:
             emit()
             return
         g = gens[i]
-        it = self.ev(g.iter)
+        it = self._nt_seq(self.ev(g.iter))
         if isinstance(it, Rec) and isinstance(it.f.get('cls'), str):
             found, res = self._dunder(it, '__iter__')
             if found:
@@ -1682,6 +1696,24 @@ class Interp:
             inst = Rec(cls=ref)
         inst.f.setdefault('args', tuple(args))
         inst.f.setdefault('kwargs', kwargs)
+        if any(b == 'ext:typing.NamedTuple' for b in self.a.res.base_refs(ref)):
+            names_, defaults_ = [], {}
+            for m_, cnode_ in reversed(self.a.res.mro(ref)):
+                for st_ in cnode_.body:
+                    if isinstance(st_, ast.AnnAssign) and isinstance(st_.target, ast.Name):
+                        names_.append(st_.target.id)
+                        if st_.value is not None:
+                            defaults_[st_.target.id] = (m_, st_.value)
+            bound_ = dict(zip(names_, args))
+            bound_.update(kwargs)
+            for n_ in names_:
+                if n_ not in bound_:
+                    if n_ not in defaults_:
+                        raise ExcRaised(Ref('builtin:TypeError'))
+                    bound_[n_] = Interp(self.a, defaults_[n_][0], {}, world=self.world).ev(defaults_[n_][1])
+            inst = Rec(cls=ref, **bound_)
+            inst.f['__nt__'] = tuple(names_)
+            return inst
         fields = self._dataclass_fields(ref)
         cm0, init0 = self._find_method(ref, '__init__')
         if fields is not None and init0 is None:
